@@ -120,7 +120,7 @@ func cmdFaults(args []string) {
 				continue
 			}
 			ev := FaultEv{Op: "fault", ID: i, Kind: sc.Kind, Mode: "rerun", Reads: R, Words: len(words), Res: base}
-			if prev, ok := earlier[i]; ok && reflect.DeepEqual(prev, base) {
+			if prev, ok := earlier[i]; ok && sameJSON(prev, base) { // (as written and read back: nil and empty lists are the same result)
 				ev.Same = 1
 			}
 			em.Emit(ev)
@@ -189,6 +189,12 @@ func cmdFaults(args []string) {
 	}
 	em.Close()
 	fmt.Printf("{\"events\":%d}\n", em.N)
+}
+
+func sameJSON(a, b interface{}) bool {
+	x, _ := json.Marshal(a)
+	y, _ := json.Marshal(b)
+	return string(x) == string(y)
 }
 
 var _ = spg.MaxTrials
